@@ -265,3 +265,74 @@ Fixpoint iter_lines (ls : list string) : outcome (list (string * list seg)) :=
       end
   end.
 Definition gm_iter (txt : string) : outcome (list (string * list seg)) := iter_lines (gm_lines txt).
+
+(* ---------- Manifest.BlockIterWithDuplicates ----------
+   For every stream in text order: a stream with Err sets m.Err and delivers nothing; otherwise each block token is
+   delivered as blockdigest.ParseBlockLocator reads it: digest (printed by BlockDigest.String: 32 lower-case hex
+   digits), size, hints joined by "+".  The second component of the result is "m.Err != nil after the channel is
+   closed"; [err] is the value of that flag before the line is processed: it is only ever SET.  (The else branch
+   "m.Err = err" of the block loop is dead: a token that blockdigest.ParseBlockLocator rejects has already given
+   the stream an Err in parseManifestStream.) *)
+Definition block_obs (loc : string) : string * N * string :=
+  (digest_key loc, loc_size loc, match split_on c_plus loc with _ :: _ :: hints => join "+" hints | _ => "" end).
+Fixpoint blocks_lines (ls : list string) (err : bool) : outcome (list (string * N * string) * bool) :=
+  match ls with
+  | [] => Ok ([], err)
+  | l :: r =>
+      match gm_parse_stream l with
+      | GpUnmodelled => Unmodelled
+      | GpErr => blocks_lines r true
+      | GpOk s => match blocks_lines r err with
+                  | Ok (bs, e) => Ok ((map block_obs (g_blocks s) ++ bs)%list, e)
+                  | x => x
+                  end
+      end
+  end.
+Definition gm_blocks (txt : string) : outcome (list (string * N * string) * bool) := blocks_lines (gm_lines txt) false.
+
+(* ---------- Manifest.FileSegmentIterByName ----------
+   This entry point does not look at stream.Err: it uses whatever parseManifestStream left in the ManifestStream.
+   [gm_err_stream]: StreamName / Blocks / FileStreamSegments of a stream WITH Err (the file tokens before the first
+   bad one; none at all when the error was found before the file tokens). *)
+Fixpoint ok_prefix (sizes : list N) (ftoks : list string) : list (N * N * string) :=
+  match ftoks with
+  | [] => []
+  | t :: r => match gm_parse_ftok t with
+              | Some (p, n, nm) => if go_range_ok sizes p n then (p, n, nm) :: ok_prefix sizes r else []
+              | None => []
+              end
+  end.
+Definition gm_err_stream (line : string) : gstream :=
+  match split_on c_sp line with
+  | [] => {| g_name := ""; g_blocks := []; g_fts := [] |}
+  | t0 :: rest =>
+      let name := gm_unescape t0 in
+      if negb (String.eqb name "." || has_prefix "./" name) then {| g_name := name; g_blocks := []; g_fts := [] |}
+      else
+        let '(blocks, ftoks) := span_go_locators rest in
+        match blocks with
+        | [] => {| g_name := name; g_blocks := []; g_fts := [] |}
+        | _ => if forallb (fun b => (loc_size b <? 2 ^ 63)%N) blocks && small_total (sizes_of blocks)
+               then {| g_name := name; g_blocks := blocks; g_fts := ok_prefix (sizes_of blocks) ftoks |}
+               else {| g_name := name; g_blocks := blocks; g_fts := [] |}
+        end
+  end.
+(* fp = fixStreamName(filepath); sendFileSegmentIterByName applies fixStreamName once more (send_segs) *)
+Fixpoint file_segs_lines (ls : list string) (fp : string) : outcome (list seg) :=
+  match ls with
+  | [] => Ok []
+  | l :: r =>
+      match (match gm_parse_stream l with
+             | GpOk s => Some s | GpErr => Some (gm_err_stream l) | GpUnmodelled => None end) with
+      | None => Unmodelled
+      | Some s =>
+          let here := if has_prefix (g_name s ++ "/") fp then send_segs s fp else Some [] in
+          match here, file_segs_lines r fp with
+          | None, _ => Panic
+          | Some a, Ok b => Ok (a ++ b)%list
+          | Some _, e => e
+          end
+      end
+  end.
+Definition gm_file_segs (txt filepath : string) : outcome (list seg) :=
+  file_segs_lines (gm_lines txt) (fix_stream_name filepath).
